@@ -59,23 +59,50 @@ def graph(g):
 
 
 def outcome(s, keep=False):
-    """(observation, compiled graphs or None).  parse and compile_str are the public entry points
-    (traits.observation.api re-exports them); their lru caches are left in place on purpose."""
+    """(observation, compiled graphs or None).  Both public entry points are exercised independently
+    (traits.observation.api re-exports them; HasTraits.observe goes through compile_str): parse(s) and
+    compile_str(s).  "o" is what compile_str did ("rej" when it raised ValueError and parse did too, "cerr" when
+    only compile_str raised ValueError); "agree" is false when the two entry points contradict each other:
+    parse rejects what compile_str accepts (or the reverse at parse level), or compile_expr(parse(s)) is not
+    structurally what compile_str(s) returns.  The lru caches are left in place on purpose."""
     try:
-        parsing.parse(s)
+        ex = parsing.parse(s)
+        p = "ok"
     except ValueError:
-        return {"o": "rej"}, None
-    except BaseException as e:   # noqa: B902  (RecursionError, KeyError ... are observations here)
-        return {"o": "crash", "exc": type(e).__name__}, None
+        ex, p = None, "rej"
+    except BaseException as e:   # noqa: B902  (RecursionError, lark exceptions ... are observations here)
+        ex, p = None, "crash:" + type(e).__name__
     try:
         gs = parsing.compile_str(s)
+        c = "graphs"
     except ValueError:
-        return {"o": "cerr"}, None
+        gs, c = None, "verr"
     except BaseException as e:   # noqa: B902
-        return {"o": "crash", "exc": type(e).__name__}, None
-    if not isinstance(gs, list):
-        return {"o": "crash", "exc": "not-a-list"}, None
-    return {"o": "graphs", "g": [graph(g) for g in gs]}, gs
+        gs, c = None, "crash:" + type(e).__name__
+    if c == "graphs" and not isinstance(gs, list):
+        return {"o": "crash", "exc": "not-a-list", "agree": True}, None
+    if p.startswith("crash") or c.startswith("crash"):
+        return {"o": "crash", "exc": (p if p.startswith("crash") else c)[6:], "agree": True}, None
+    if c == "graphs":
+        g = [graph(x) for x in gs]
+        agree = p == "ok"
+        if agree:
+            try:
+                agree = [graph(x) for x in expression.compile_expr(ex)] == g
+            except BaseException:   # noqa: B902
+                agree = False
+        return {"o": "graphs", "g": g, "agree": agree}, gs
+    if p == "ok":
+        # compile_str raised ValueError after a successful parse: must be the compile step, not a second parse
+        try:
+            expression.compile_expr(ex)
+            agree = False
+        except ValueError:
+            agree = True
+        except BaseException:   # noqa: B902
+            agree = False
+        return {"o": "cerr", "agree": agree}, None
+    return {"o": "rej", "agree": True}, None
 
 
 class Probe(HasTraits):
@@ -198,7 +225,10 @@ def run_blocks(job):
             for code in enc.enc_outcome(o):
                 h = enc.dstep(h, code)
             k = o["o"]
-            if k == "graphs":
+            if not o.get("agree", True):
+                h = enc.dstep(h, 97)      # entry points disagree: forces a digest difference -> embedded re-run
+                other.append(i)
+            elif k == "graphs":
                 acc.append(i)
             elif k == "cerr":
                 cerr.append(i)
